@@ -1,3 +1,4 @@
 import DcmVerif.Props.C02_stack
 import DcmVerif.Props.C02_orient
+import DcmVerif.Props.C02_wrap
 /-! C02: voxel values and geometry (parts: fill index arithmetic, reorientation). -/
